@@ -99,15 +99,8 @@ def _check_identical_or_any(incoming_type: type[Any], required_type: type[Any]) 
     )
 
 
-def _all_types_compatible(
-    incoming_args: tuple[Any, ...],
-    required_args: tuple[Any, ...],
-    memo: TypeCheckMemo,
-) -> bool:
-    """Helper function to check if all incoming types are compatible with any required type."""
-    return all(
-        any(is_type_compatible(t1, t2, memo) for t2 in required_args) for t1 in incoming_args
-    )
+def _is_union(type_: Any) -> bool:
+    return isinstance(type_, UnionType) or get_origin(type_) is Union
 
 
 def _handle_union_types(
@@ -116,17 +109,15 @@ def _handle_union_types(
     memo: TypeCheckMemo,
 ) -> bool | None:
     """Handle compatibility logic for Union types with directional consideration."""
-    if (isinstance(incoming_type, UnionType) or get_origin(incoming_type) is Union) and (
-        isinstance(required_type, UnionType) or get_origin(required_type) is Union
-    ):
-        incoming_type_args = get_args(incoming_type)
-        required_type_args = get_args(required_type)
-        return _all_types_compatible(incoming_type_args, required_type_args, memo)
+    if get_origin(incoming_type) is Annotated and _is_union(get_args(incoming_type)[0]):
+        # The metadata of an annotated union does not affect compatibility,
+        # each member of the union needs to be accepted
+        incoming_type = get_args(incoming_type)[0]
 
-    if isinstance(incoming_type, UnionType) or get_origin(incoming_type) is Union:
+    if _is_union(incoming_type):
         return all(is_type_compatible(t, required_type, memo) for t in get_args(incoming_type))
 
-    if isinstance(required_type, UnionType) or get_origin(required_type) is Union:
+    if _is_union(required_type):
         return any(is_type_compatible(incoming_type, t, memo) for t in get_args(required_type))
 
     return None
